@@ -1230,6 +1230,12 @@ def routing_api(rng, name):
     # explicit routing wins over the HTTP rule
     s.rpc("Both", P + ".Req", P + ".Reply", http={"get": "/v1/{name=things/*}"}, routing=[("app_profile_id", "")])
     s.rpc("NoHeader", P + ".Req", P + ".Reply")
+    # only variables of the PRIMARY path template count: a primary path without variables sends no header, whatever the
+    # additional bindings contain
+    s.rpc("PrimaryPlain", P + ".Req", P + ".Reply", http={"get": "/v1/things"},
+          extra=[({"get": "/v1/{name=projects/*}/things"}, None), ({"get": "/v1/{table_name=tables/*}/things/{sub.region}"}, None)])
+    api.info.setdefault("implicit", {})["PrimaryPlain"] = "primary_without_variables"
+    tags.add("implicit:primary_without_variables")
     # AIP-4222: an empty annotation is acceptable and means that no routing header is sent, although the HTTP rule has variables
     s.rpc("Disabled", P + ".Req", P + ".Reply", http={"get": "/v1/{name=things/*}/parts/{table_name}"}, routing=[])
     api.info.setdefault("explicit", {})["Disabled"] = "empty_annotation"
@@ -1708,7 +1714,8 @@ def respath_api(rng, name, npat=36):
 AUTOPOP_VIOLATIONS = ["unknown_method", "server_streaming", "client_streaming", "nested_field", "required_field", "int_field",
                       "bytes_field", "unannotated", "other_format", "duplicate_selector", "unknown_field", "message_field",
                       "duplicate_selector_long_running_only", "duplicate_selector_empty_fields", "duplicate_of_unpopulated",
-                      "required_after_other_behavior", "required_before_other_behavior"]
+                      "required_after_other_behavior", "required_before_other_behavior",
+                      "leading_dot_selector", "leading_dot_duplicate"]
 
 
 def autopop_api(rng, name, violation=None):
@@ -1773,6 +1780,9 @@ def autopop_api(rng, name, violation=None):
         "duplicate_of_unpopulated": {"selector": f"{S}.Untouched", "auto_populated_fields": ["request_id"]},
         "required_after_other_behavior": {"selector": f"{S}.Untouched", "auto_populated_fields": ["immutable_required_id"]},
         "required_before_other_behavior": {"selector": f"{S}.Untouched", "auto_populated_fields": ["required_input_only_id"]},
+        # spellings of a selector that name no method (a selector is the bare fully-qualified name)
+        "leading_dot_selector": {"selector": f".{S}.Untouched", "auto_populated_fields": ["request_id"]},
+        "leading_dot_duplicate": {"selector": f".{S}.Create", "auto_populated_fields": ["third_id"]},
         "unknown_field": {"selector": f"{S}.Untouched", "auto_populated_fields": ["no_such_field"]},
         "message_field": {"selector": f"{S}.Untouched", "auto_populated_fields": ["sub_id"]},
     }
@@ -1803,7 +1813,7 @@ MIXIN_METHODS = {
 }
 
 
-def mixin_api(rng, name, mixins, rules_mode, own_iam=None, add_iam=False, transport="grpc+rest", prefix="/v1"):
+def mixin_api(rng, name, mixins, rules_mode, own_iam=None, add_iam=False, transport="grpc+rest", prefix="/v1", annex="random"):
     """Service YAML mixin configurations (C17).  rules_mode in {all, some, none}; own_iam: None or a list of IAM RPC
     names the API defines itself."""
     api = Api(name)
@@ -1818,7 +1828,9 @@ def mixin_api(rng, name, mixins, rules_mode, own_iam=None, add_iam=False, transp
     q.field("name", "string")
     r = f.message("Reply")
     r.field("ok", "bool")
-    if rng.random() < 0.5:
+    if annex == "random":
+        annex = rng.choice([None, "before", "after"])
+    if annex == "before":
         # another service declared first: whatever the API overrides is then not in the first service
         s0 = f.service("Annex", host=f"{name}.googleapis.com")
         s0.rpc("Peek", P + ".Req", P + ".Reply", http={"get": "/v1/{name=annexes/*}"})
@@ -1834,6 +1846,11 @@ def mixin_api(rng, name, mixins, rules_mode, own_iam=None, add_iam=False, transp
         if verb == "post":
             kw["body"] = "*"
         s.rpc(nm, ".google.iam.v1." + rq, ".google.iam.v1." + rs, **kw)
+    if annex == "after":
+        # ... or declared last: the overriding service is then not the last one
+        s9 = f.service("Annex", host=f"{name}.googleapis.com")
+        s9.rpc("Peek", P + ".Req", P + ".Reply", http={"get": "/v1/{name=annexes/*}"})
+        api.tags.add("overriding-service-not-last")
     rules = {}
     for m in mixins:
         n = len(MIXIN_RULES[m][1])
@@ -1856,6 +1873,16 @@ def mixin_api(rng, name, mixins, rules_mode, own_iam=None, add_iam=False, transp
         for i in rules[m]:
             sel, r0 = rl[i]
             r1 = {k: (v.replace("/v1/", prefix + "/") if isinstance(v, str) and v.startswith("/v1/") else v) for k, v in r0.items()}
+            verb = [k for k in r1 if k in ("get", "post", "delete")][0]
+            roll = rng.random()
+            if roll < 0.25:
+                # a second binding on the same URI with another verb / body: the first binding stays the one in effect
+                other = {"post": r1[verb], "body": "*"} if verb == "get" else {"get": r1[verb]}
+                r1["additional_bindings"] = [other]
+                api.tags.add("mixin-additional-binding-same-uri")
+            elif roll < 0.4:
+                r1["additional_bindings"] = [{verb: r1[verb].replace(prefix + "/", prefix + "/alt/"), **({"body": r1["body"]} if "body" in r1 else {})}]
+                api.tags.add("mixin-additional-binding-other-uri")
             doc_rules[sel] = r1
     api.info["rule_by_selector"] = doc_rules
     text = service_yaml(api, mixins=mixins, rules={m: [] for m in mixins},
